@@ -320,6 +320,76 @@ class Units:
                     q_ = op_place(t["args"][1])
                     if q_ is not None and q_["l"] in absoff:
                         self._v("abs-offset-to-relative-api", decl.split("::")[-1], t.get("line"), "an offset built from the absolute position %s is passed to %s on a receiver of type %s, which reads offsets relative to its own begin" % (absoff[q_["l"]], decl.split("::")[-1], at0[:50]))
+        # relative positions carry the selection they are relative to: Abs - X.begin() is relative to X, and must go to X's API
+        def base_of(o):
+            """if operand o holds `X.begin()` or `X.absolute_cursor(0)`: the key of X"""
+            q = op_place(o)
+            depth = 0
+            while q is not None and not q["p"] and depth < 6:
+                sd = b.single_def(q["l"])
+                if sd is None:
+                    return None
+                _, _, kind, payload = sd
+                if kind == "call":
+                    decl, res, info = callee_of(payload)
+                    if decl and payload.get("args") and (re.search(r"::begin$", decl) or (re.search(r"::absolute_cursor$", decl) and len(payload["args"]) == 2 and (payload["args"][1].get("k") or {}).get("v") == 0)):
+                        return b.key_of_operand(payload["args"][0]).lstrip("&*")
+                    return None
+                if kind == "assign" and payload["r"] in ("use", "cast"):
+                    q = op_place(payload["o"])
+                    depth += 1
+                    continue
+                return None
+            return None
+        rel = {}
+        for _ in range(6):
+            ch = False
+            for blk in b.blocks:
+                for s_ in blk["s"]:
+                    rv = s_.get("rv")
+                    if not rv or s_["p"]["p"]:
+                        continue
+                    l_ = s_["p"]["l"]
+                    base = None
+                    if rv["r"] == "bin" and rv["op"] in ("Sub", "SubWithOverflow") and self.abs_op(rv["a"]):
+                        base = base_of(rv["b"])
+                    elif rv["r"] in ("use", "cast"):
+                        q_ = op_place(rv["o"])
+                        if q_ is not None and q_["l"] in rel:
+                            base = rel[q_["l"]]
+                    elif rv["r"] == "ref" and rv["p"]["l"] in rel:
+                        base = rel[rv["p"]["l"]]
+                    elif rv["r"] == "agg" and rv.get("adt", "").endswith("Cursor") and rv.get("variant") == "BeginAligned" and rv.get("ops"):
+                        q_ = op_place(rv["ops"][0])
+                        if q_ is not None and q_["l"] in rel:
+                            base = rel[q_["l"]]
+                    if base and l_ not in rel:
+                        rel[l_] = base
+                        ch = True
+                t = blk["t"]
+                if t["t"] == "call" and "dest" in t and not t["dest"]["p"]:
+                    decl, res, info = callee_of(t)
+                    if decl and re.search(r"selector::Offset::(simple|new)$", decl):
+                        for a_ in t.get("args", []):
+                            q_ = op_place(a_)
+                            if q_ is not None and q_["l"] in rel and t["dest"]["l"] not in rel:
+                                rel[t["dest"]["l"]] = rel[q_["l"]]
+                                ch = True
+            if not ch:
+                break
+        for blk in b.blocks:
+            if blk.get("cleanup"):
+                continue
+            t = blk["t"]
+            if t["t"] == "call" and t.get("args") and len(t["args"]) >= 2:
+                decl, res, info = callee_of(t)
+                at0 = (t.get("at") or [""])[0]
+                if decl and re.search(r"::(textselection|text_by_offset)$", decl) and not re.search(r"TextResource", at0):
+                    q_ = op_place(t["args"][1])
+                    if q_ is not None and q_["l"] in rel:
+                        recv = b.key_of_operand(t["args"][0]).lstrip("&*")
+                        if recv != rel[q_["l"]] and recv not in ("?", "") and rel[q_["l"]] not in ("?", ""):
+                            self._v("rel-base-mismatch", decl.split("::")[-1], t.get("line"), "an offset computed relative to `%s` (position - %s.begin()) is passed to %s of `%s`, which reads it relative to its own begin" % (rel[q_["l"]], rel[q_["l"]], decl.split("::")[-1], recv))
         # an absolute position handed to the codepoint->byte conversion of a *selection*, which takes positions relative to the selection
         for blk in b.blocks:
             if blk.get("cleanup"):
